@@ -273,6 +273,11 @@ func c18Bucket(n int, edges []int, name string) string {
 	return fmt.Sprintf("%s>%d", name, edges[len(edges)-1])
 }
 
+// c18TB is satisfied by *testing.T and *rapid.T.
+type c18TB interface {
+	Fatalf(format string, args ...interface{})
+}
+
 // c18Result is what one flush produced.
 type c18Result struct {
 	annMsgs int
@@ -280,7 +285,7 @@ type c18Result struct {
 }
 
 // c18RunOne queues attrs a for all prefixes on a fresh session, flushes and judges the stream.
-func c18RunOne(t *rapid.T, s c10Sess, a c10Attrs, pfxs []kit.Bits, lenMode int, mode string) c18Result {
+func c18RunOne(t c18TB, s c10Sess, a c10Attrs, pfxs []kit.Bits, lenMode int, mode string) c18Result {
 	c10Log.take()
 	rig := c10NewRig(s)
 	queued := make(map[kit.Bits]int, len(pfxs))
@@ -291,9 +296,30 @@ func c18RunOne(t *rapid.T, s c10Sess, a c10Attrs, pfxs []kit.Bits, lenMode int, 
 		}
 		queued[p] = 0
 	}
-	want, _ := c10Expected(rig)
-	if len(want) != len(pfxs) {
-		t.Fatalf("C18 harness precondition: Adj-RIB-Out holds %d routes after %d AddPath calls (session %v)", len(want), len(pfxs), s)
+	// what the Adj-RIB-Out holds: one path per prefix, all built from the same attribute set by the
+	// same rewrite; the wire rendering is computed for every 61st path only (it is the same string).
+	wantID := make(map[kit.Bits]uint32, len(pfxs))
+	wantView := ""
+	for i, rt := range rig.rib.Dump() {
+		ps := rt.Paths()
+		if len(ps) != 1 {
+			t.Fatalf("C18 harness precondition: %d paths for %v in the Adj-RIB-Out", len(ps), rt.Prefix())
+		}
+		id := uint32(0)
+		if s.addPath {
+			id = ps[0].BGPPath.PathIdentifier
+		}
+		wantID[c10Bits(rt.Prefix())] = id
+		if i%61 == 0 {
+			v := c10PathView(ps[0], s)
+			if wantView != "" && v != wantView {
+				t.Fatalf("C18 harness precondition: Adj-RIB-Out paths of one attribute set differ: [%s] vs [%s]", c18Short(v), c18Short(wantView))
+			}
+			wantView = v
+		}
+	}
+	if len(wantID) != len(pfxs) {
+		t.Fatalf("C18 harness precondition: Adj-RIB-Out holds %d routes after %d AddPath calls (session %v)", len(wantID), len(pfxs), s)
 	}
 	switch mode {
 	case "sender-loop":
@@ -319,13 +345,12 @@ func c18RunOne(t *rapid.T, s c10Sess, a c10Attrs, pfxs []kit.Bits, lenMode int, 
 			return
 		}
 		queued[k.p] = cnt + 1
-		w, ok := want[k]
-		if !ok {
-			bad = fmt.Sprintf("announced %v with a path id the Adj-RIB-Out does not hold", k)
+		if id := wantID[k.p]; id != k.id {
+			bad = fmt.Sprintf("announced %v, the Adj-RIB-Out holds that prefix with path id %d", k, id)
 			return
 		}
-		if w != view {
-			bad = fmt.Sprintf("%v announced with attributes [%s], queued path has [%s]", k, c18Short(view), c18Short(w))
+		if wantView != view {
+			bad = fmt.Sprintf("%v announced with attributes [%s], queued path has [%s]", k, c18Short(view), c18Short(wantView))
 		}
 	})
 	diag := func() string {
@@ -387,7 +412,7 @@ func TestVerifC18Packing(t *testing.T) {
 			nlriSize += 4
 		}
 		sweep := 1
-		if lenMode <= 1 && rapid.IntRange(0, 2).Draw(t, "sweep") != 0 {
+		if lenMode <= 1 && rapid.IntRange(0, 2).Draw(t, "sweep") == 0 {
 			sweep = nlriSize
 		}
 		a, estimate := c18GenAttrs(t, s, sweep+3)
@@ -403,7 +428,7 @@ func TestVerifC18Packing(t *testing.T) {
 		per := budget/avg + 1
 		lo, hi := 5, 40
 		if sweep > 1 {
-			lo, hi = 11, 24
+			lo, hi = 11, 19
 		}
 		n := per * rapid.IntRange(lo, hi).Draw(t, "fill_tenths") / 10
 		n += rapid.IntRange(-3, 3).Draw(t, "n_jitter")
